@@ -7,6 +7,9 @@ import (
 	"crypto/ed25519"
 	"crypto/elliptic"
 	"crypto/rsa"
+	"crypto/sha1"
+	"crypto/sha256"
+	"crypto/sha512"
 	"encoding/asn1"
 	"fmt"
 	"math/big"
@@ -239,7 +242,7 @@ func malformedKeys() []crypto.PublicKey {
 
 func TestC02_Splices(t *testing.T) {
 	st := NewStats("C02", "TestC02_Splices", "rapid: two signed tokens (same or different key / algorithm / claims); splice protected, payload or signature content between them; replace the signature by zeros, random bytes, the other token's signature, right-length wrong bytes, or other spellings of the same (r,s) (ASN.1 DER, DER plus junk, zero-padded / zero-stripped halves, doubled); 1..8 random byte edits; protected header / payload re-encoded into different but equivalent bytes (non-preferred widths, long or indefinite map head, permuted keys) under the original signature; bytes appended to / cut from the payload or protected-header content with the length prefix adjusted; correctly signed envelopes that carry the algorithm only in the unprotected header or nowhere, a nil payload, an empty signature; verification with every other key (same type, other types, nil, non-keys). Oracle: independent splitter decides whether covered bytes changed; wrong key never verifies; alg-less/payload-less/signature-less never verify. Non-trivial = the altered token decodes; distinct = (alg, mutation kind, details)")
-	st.Require = []string{"splice-payload", "splice-protected", "splice-signature", "sig-zero", "sig-random", "byte-edits", "alg-unprotected-only", "alg-nowhere", "nil-payload", "nil-payload-original-sig", "empty-signature", "wrong-key", "decoded-verify-failed", "equiv-protected", "equiv-payload", "extend-payload", "extend-protected", "sig-reencode", "prefix-payload", "other-container"}
+	st.Require = []string{"splice-payload", "splice-protected", "splice-signature", "sig-zero", "sig-random", "byte-edits", "alg-unprotected-only", "alg-nowhere", "nil-payload", "nil-payload-original-sig", "empty-signature", "wrong-key", "decoded-verify-failed", "equiv-protected", "equiv-payload", "extend-payload", "extend-protected", "sig-reencode", "prefix-payload", "other-container", "keyless-signature"}
 	defer st.Flush(t)
 	rapid.Check(t, func(t *rapid.T) {
 		algA := rapid.SampledFrom([]int64{icose.EdDSA, icose.EdDSA, icose.ES256, icose.ES256, icose.PS256, icose.ES384, icose.ES512, icose.PS384, icose.PS512}).Draw(t, "algA")
@@ -250,7 +253,7 @@ func TestC02_Splices(t *testing.T) {
 			t.Fatalf("cannot sign: %v", err)
 		}
 		otherTrafficEvery(4)
-		kind := rapid.SampledFrom([]string{"splice-payload", "splice-protected", "splice-signature", "sig-zero", "sig-random", "sig-flip", "byte-edits", "alg-unprotected-only", "alg-nowhere", "nil-payload", "nil-payload-original-sig", "nil-payload-original-sig", "empty-signature", "wrong-key", "reencode", "equiv-protected", "equiv-protected", "equiv-payload", "extend-payload", "extend-payload", "extend-protected", "shrink-payload", "sig-reencode", "sig-reencode", "prefix-payload", "prefix-payload", "other-container", "other-container"}).Draw(t, "kind")
+		kind := rapid.SampledFrom([]string{"splice-payload", "splice-protected", "splice-signature", "sig-zero", "sig-random", "sig-flip", "byte-edits", "alg-unprotected-only", "alg-nowhere", "nil-payload", "nil-payload-original-sig", "nil-payload-original-sig", "empty-signature", "wrong-key", "reencode", "equiv-protected", "equiv-protected", "equiv-payload", "extend-payload", "extend-payload", "extend-protected", "shrink-payload", "sig-reencode", "sig-reencode", "prefix-payload", "prefix-payload", "other-container", "other-container", "keyless-signature", "keyless-signature"}).Draw(t, "kind")
 		var mut []byte
 		detail := ""
 		rebuild := func(prot, pay, sig []byte) []byte {
@@ -458,6 +461,71 @@ func TestC02_Splices(t *testing.T) {
 			mut = icbor.Encode(icbor.Tag(18, icbor.Arr(icbor.Bstr(a.Parts.Protected), icbor.Map(), pl, icbor.Bstr(a.Parts.Signature))))
 		case "empty-signature":
 			mut = rebuild(a.Parts.Protected, a.Parts.Payload, nil)
+		case "keyless-signature":
+			// an altered payload under a "signature" that anybody can compute
+			// from public data: digests of the Sig_structure / payload /
+			// protected header (repeated or padded to the algorithm's
+			// signature size - the short-circuit signatures of test builds),
+			// the bytes themselves, constant patterns
+			pay := append([]byte{}, a.Parts.Payload...)
+			pay[len(pay)-1] ^= 0x01
+			if genBool.Draw(t, "otherclaims") {
+				pay = icbor.Encode(GenValid(t, mA.Prof, false).WireNode())
+			}
+			tbs := icbor.Encode(icbor.Arr(icbor.Tstr("Signature1"), icbor.Bstr(a.Parts.Protected), icbor.Bstr(nil), icbor.Bstr(pay)))
+			srcs := map[string][]byte{"tbs": tbs, "payload": pay, "protected": a.Parts.Protected,
+				"tbs-no-aad": icbor.Encode(icbor.Arr(icbor.Tstr("Signature1"), icbor.Bstr(a.Parts.Protected), icbor.Bstr(pay)))}
+			n := len(a.Parts.Signature)
+			// every combination is tried (72 candidate signatures per case)
+			for _, srcName := range []string{"tbs", "payload", "protected", "tbs-no-aad"} {
+				src := srcs[srcName]
+				for _, hname := range []string{"sha256", "sha384", "sha512", "sha1", "raw", "const"} {
+					var digest []byte
+					switch hname {
+					case "sha256":
+						d := sha256.Sum256(src)
+						digest = d[:]
+					case "sha384":
+						d := sha512.Sum384(src)
+						digest = d[:]
+					case "sha512":
+						d := sha512.Sum512(src)
+						digest = d[:]
+					case "sha1":
+						d := sha1.Sum(src)
+						digest = d[:]
+					case "raw":
+						digest = src
+					default:
+						digest = []byte{0x5a}
+					}
+					for _, fit := range []string{"repeat", "pad-zero", "as-is"} {
+						var sg []byte
+						switch fit {
+						case "repeat":
+							for len(sg) < n {
+								sg = append(sg, digest...)
+							}
+							sg = sg[:n]
+						case "pad-zero":
+							sg = make([]byte, n)
+							copy(sg, digest)
+						default:
+							sg = digest
+						}
+						cand := rebuild(a.Parts.Protected, pay, sg)
+						if ev, derr := psatoken.DecodeEvidenceFromCOSE(cand); derr == nil {
+							for _, k := range []crypto.PublicKey{kpA.Pub, keyFor(algA, kpA.Idx+1).Pub} {
+								if ev.Verify(k) == nil {
+									t.Fatalf("C02 violated (%s): an altered payload under a signature that needs no key (%s of the %s, %s) VERIFIES: %x", kpA.Name(), hname, srcName, fit, cand)
+								}
+							}
+						}
+					}
+				}
+			}
+			st.Case(kpA.Name()+"|keyless-signature|"+mA.ClassVector(), "keyless-signature", icose.AlgName(algA))
+			return
 		case "other-container":
 			// claims the signer never signed (another valid claims-set, or the
 			// genuine one with one byte changed) presented in something that
